@@ -61,7 +61,7 @@ func runC20(c *Ctx) error {
 	seen := map[string]bool{}
 	for i := 0; i < n; i++ {
 		d := &c19db{env: env, st: leveldbstorage.NewMemStorage(), permst: leveldbstorage.NewMemStorage(),
-			mapIDs: map[string]string{}, proofID: map[string]string{}, valueID: map[string]string{}, polID: map[string]string{}, ops: map[string]util.Hash{}}
+			mapIDs: map[string]string{}, proofID: map[string]string{}, valueID: map[string]string{}, polID: map[string]string{}, ops: map[string]util.Hash{}, stcache: (i % 2) * 100}
 		if err := d.open(); err != nil {
 			return err
 		}
